@@ -310,7 +310,24 @@ func (p *Parser) ParseUnaryExpression() ast.Expression {
 	}
 	p.NextToken()
 	expression.Right = p.expressionParseFn(p, UNARY)
+	if (expression.Token.Type == token.INCREMENT || expression.Token.Type == token.DECREMENT) && !isAssignmentTarget(expression.Right) {
+		p.AddErrorAtToken("invalid increment/decrement operand", expression.Token)
+	}
 	return expression
+}
+
+// isAssignmentTarget reports whether expr can be assigned to: an identifier or a
+// member access, possibly inside parentheses.
+func isAssignmentTarget(expr ast.Expression) bool {
+	switch e := expr.(type) {
+	case *ast.Identifier, *ast.MemberExpression:
+		return true
+	case *ast.GroupedExpression:
+		return isAssignmentTarget(e.Expression)
+	case nil:
+		return true // an error has already been reported for the missing operand
+	}
+	return false
 }
 
 func (p *Parser) ParsePostfixExpression(left ast.Expression) ast.Expression {
@@ -318,6 +335,9 @@ func (p *Parser) ParsePostfixExpression(left ast.Expression) ast.Expression {
 		Token:    p.CurrentToken,
 		Left:     left,
 		Operator: p.CurrentToken.Literal,
+	}
+	if !isAssignmentTarget(left) {
+		p.AddError("invalid increment/decrement operand")
 	}
 	return expression
 }
@@ -412,6 +432,9 @@ func (p *Parser) ParseAssignmentExpression(left ast.Expression) ast.Expression {
 		Token: p.CurrentToken,
 		Left:  left,
 	}
+	if !isAssignmentTarget(left) {
+		p.AddError("invalid assignment target")
+	}
 	p.NextToken()
 	expression.Value = p.ParseExpression()
 	return expression
@@ -421,6 +444,9 @@ func (p *Parser) ParseCompoundAssignmentExpression(left ast.Expression) ast.Expr
 	expression := &ast.CompoundAssignmentExpression{
 		Token: p.CurrentToken,
 		Left:  left,
+	}
+	if !isAssignmentTarget(left) {
+		p.AddError("invalid assignment target")
 	}
 	switch p.CurrentToken.Type {
 	case token.PLUS_ASSIGN:
